@@ -209,6 +209,9 @@ pub fn check(case: &Case) -> Verdict {
         }
     }
     let input = &case.input.0;
+    if crate::gen::starts_with_bom(input) {
+        return Verdict::Reject("input starts with a byte-order mark (transcoding is C17's subject)");
+    }
     let reference = m.run(&case.cfg, &Strat::Slice, input);
     let ctx = |label: &str, out: &RunOut| {
         format!(
@@ -235,7 +238,22 @@ pub fn check(case: &Case) -> Verdict {
         .collect();
     let exp = model::expected(input, &case.cfg, &lines, &success, false);
     let (body, fin) = model::split_finish(&reference.events);
-    if let Err(e) = model::compare(&exp, body) {
+    // Known finding under C01 (rooted in the regex engine): with a Unicode
+    // word assertion the engine's look-behind reads past stray UTF-8
+    // continuation bytes at the start of a line into the previous line, so
+    // whole-buffer matching and per-line matching may disagree on such a
+    // line. The strategy comparison below is unaffected; only this
+    // model cross-check is skipped for that shape.
+    let engine_lookbehind_shape = match &m {
+        AnyM::Re(rm) => {
+            rm.verif_final_hir().properties().look_set().contains_word_unicode()
+                && lines.iter().skip(1).any(|l| input.get(l.start).map_or(false, |b| (0x80..=0xBF).contains(b)))
+        }
+        _ => false,
+    };
+    if engine_lookbehind_shape {
+        // fall through to the strategy comparison
+    } else if let Err(e) = model::compare(&exp, body) {
         return Verdict::Fail(
             Fail::new(format!("slice result differs from the LineModel: {e}\n expected: {}\n{}", sea::show_events(&tail(&exp.events)), ctx("slice", &reference)))
                 .fact("model"),
@@ -266,6 +284,11 @@ pub fn check(case: &Case) -> Verdict {
             let label = format!("{}{}", strat.label(), if cfg.multi_line { "+multi_line" } else { "" });
             if out.events != reference.events || out.result != reference.result {
                 let mut f = Fail::new(format!("results depend on the strategy ({label} vs slice)\n{}", ctx(&label, &out)));
+                if engine_lookbehind_shape {
+                    // where a buffer begins changes what the engine's
+                    // look-behind sees before such a line (known finding)
+                    f = f.fact("unicode-word-lookaround").fact("line-starts-with-utf8-continuation-byte");
+                }
                 if only_finish_differs(&out.events, &reference.events) {
                     f = f.fact("only-byte-count-differs");
                     if case.cfg.stop_on_nonmatch {
@@ -329,6 +352,7 @@ pub fn check(case: &Case) -> Verdict {
     info.class_if(case.strats.iter().any(|s| matches!(s, Strat::PathMmap)), "file_and_mmap");
     info.class_if(lines.iter().any(|l| l.end - l.start > 200), "line_longer_than_any_small_capacity");
     info.class_if(case.cli, "cli_run");
+    info.class_if(engine_lookbehind_shape, "model_cross_check_skipped_known_engine_lookbehind");
     let _ = variants;
     Verdict::Pass(info)
 }
